@@ -101,6 +101,8 @@ def types(big=False):
     T.append({"k": "seqof", "arg": I, "bound": cls("Sequence"), "py": ["seq", "Sequence", I]})
     T.append({"k": "seqof", "arg": S, "bound": cls("Sequence"), "py": ["seq", "Sequence", S]})
     T.append({"k": "seqof", "arg": I, "bound": cls("list"), "py": ["seq", "list", I]})
+    T.append({"k": "seqof", "arg": I, "bound": cls("tuple"), "py": ["seq", "tuple", I]})     # tuple[int, ...]
+    T.append({"k": "seqof", "arg": S, "bound": cls("tuple"), "py": ["seq", "tuple", S]})
     T.append({"k": "collof", "arg": S, "bound": cls("Collection"), "py": ["coll", "Collection", S]})
     T.append({"k": "mapof", "kt": S, "vt": I, "bound": cls("Mapping"), "py": ["map", "Mapping", S, I]})
     T.append({"k": "mapof", "kt": S, "vt": O, "bound": cls("dict"), "py": ["map", "dict", S, O]})
@@ -181,6 +183,8 @@ def real(py):
         args = tuple(real_term(a) for a in py[1])
         return tuple[args] if args else tuple[()]
     if k == "seq":
+        if py[1] == "tuple":
+            return tuple[real_term(py[2]), ...]
         o = {"Sequence": typing.Sequence, "list": list}[py[1]]
         return o[real_term(py[2])]
     if k == "coll":
